@@ -35,8 +35,7 @@ add("c18_fenwick_max_l5_k3", 13, "MaxBitTree<u32> len 5, 3 updates")
 add("c18_fenwick_maxpair_l5_k3", 43, "MaxBitTree<(u32,u32)> len 5, 3 updates")
 add("c18_fenwick_max_l8_k4", 155, "MaxBitTree<u32> len 8, 4 updates")
 add("c18_smallints_from_elem_n3", 62, "SmallInts<i8,isize>::from_elem(v,3); set(i,w) with symbolic v,i,w; get")
-add("c18_fenwick_sum_l8_k4", 300, "SumBitTree<u32> len 8, 4 updates", tier="thorough")
-add("c18_fenwick_maxpair_l8_k4", 300, "MaxBitTree<(u32,u32)> len 8, 4 updates", tier="thorough")
+add("c18_fenwick_sum_l8_k4", 1200, "SumBitTree<u32> len 8, 4 updates", tier="thorough")
 
 # ---------------------------------------------------------------------------------------------------------------- C17
 add = prop("C17", "c17",
@@ -69,6 +68,10 @@ add("c20_dna_revcomp_n1", 70, "dna::revcomp, length 1, all bytes")
 add("c20_dna_revcomp_n3", 70, "dna::revcomp, length 3, all bytes")
 add("c20_rna_revcomp_n3", 66, "rna::revcomp, length 3, all bytes")
 add("c20_dna_revcomp_n4", 71, "dna::revcomp, length 4, all bytes", tier="thorough")
+add("c20_alphabet_small_c4_t3", 111, "Alphabet/RankTransform over every non-empty subset of {0,1,2,5}, symbolic text of length 3, symbolic queried member")
+add("c20_alphabet_block_c4_t2", 258, "Alphabet/RankTransform over every non-empty subset of {0,31,32,63} (32-bit block boundary of the bit set), symbolic text of length 2", tier="thorough")
+add("c20_alphabet_c3_t2", 319, "Alphabet/RankTransform over every non-empty subset of {31,32,255}, symbolic text of length 2", tier="thorough")
+add("c20_alphabet_c4_t3", 390, "Alphabet/RankTransform over every non-empty subset of {A,C,G,T}, symbolic text of length 3", tier="thorough")
 add("c20_gc_n1", 2, "gc_content/gc3_content, length 1", min_covers=1)
 add("c20_gc_n4", 2, "gc_content/gc3_content, length 4", min_covers=2)
 add("c20_gc_n6", 3, "gc_content/gc3_content, length 6", min_covers=2)
@@ -115,7 +118,7 @@ add("c08_bndm_sparse_m64_n64_k0", 16, "BNDM, concrete pattern of 64 symbols (doc
 # ---------------------------------------------------------------------------------------------------------------- C05
 add = prop("C05", "c05",
  "Bounded model checking of the real provided method FMIndexable::backward_search (LF-mapping loop, interval bookkeeping, Complete/Partial/Absent classification) and Interval semantics: for each listed (text length n, pattern length m, alphabet) ALL texts (last symbol '$', optionally a second sentinel at a symbolic position), the suffix array as the unique array satisfying the sortedness predicate, and ALL sentinel-free patterns are covered by one solver query; results are compared with a naive occurrence scan for every pattern suffix.",
- "Compositional: the harness implements FMIndexable with occ/less given by their definitions (counting loops over the BWT computed from the assumed-sorted suffix array) and runs the REAL backward_search on it; exactness of the real Occ/less/bwt tables is C04's subject. Bound: text n<=10 over {A,C} (n<=7 over {A,C,G,T}), 1-2 sentinels, pattern m<=4 incl. patterns longer than the text (quick); larger instances listed in the thorough tier. " + TRUST + "Not decided: the three one-line delegations in impl FMIndexable for FMIndex<DBWT,DLess,DOcc> together with heap-built components (35 GB, measured), resolution through SampledSuffixArray, FMDIndex.",
+ "Compositional: the harness implements FMIndexable with occ/less given by their definitions (counting loops over the BWT computed from the assumed-sorted suffix array) and runs the REAL backward_search on it; exactness of the real Occ/less/bwt tables is C04's subject. Bound: text n<=10 over {A,C} (n<=7 over {A,C,G,T}), 1-2 sentinels, pattern m<=4 incl. patterns longer than the text (quick); n=12 (m=4) and n=14 (m=3) in the thorough tier. " + TRUST + "Not decided: the three one-line delegations in impl FMIndexable for FMIndex<DBWT,DLess,DOcc> together with heap-built components (35 GB, measured), resolution through SampledSuffixArray, FMDIndex.",
  ["bio::data_structures::fmindex::FMIndexable::backward_search (provided method)", "bio::data_structures::fmindex::{Interval, BackwardSearchResult}"],
  "see level_note", "texts longer than 10; the FMIndex glue impl over real Occ tables; sampled suffix arrays", ["suffix array = the (unique) permutation under which adjacent suffixes are strictly increasing in byte order with shorter-is-smaller tie-break (sentinel-free patterns make the order among sentinel suffixes irrelevant)"])
 for h, t, b, tier in [
@@ -126,6 +129,7 @@ for h, t, b, tier in [
  ("c05_bs_n7_m3", 16, "n=7 over {A,C}$, m=3", "quick"), ("c05_bs_n8_m3", 20, "n=8, m=3", "quick"),
  ("c05_bs_n6_m3_acg", 15, "n=6 over {A,C,G}$, m=3", "quick"), ("c05_bs_n7_m2_acgt_multi", 33, "n=7 over {A,C,G,T}, two sentinels, m=2", "quick"),
  ("c05_bs_n8_m4_multi", 30, "n=8, two sentinels, m=4", "quick"), ("c05_bs_n10_m4", 51, "n=10, m=4", "quick"),
+ ("c05_bs_n12_m4", 170, "n=12 over {A,C}$, m=4", "thorough"), ("c05_bs_n14_m3", 477, "n=14 over {A,C}$, m=3", "thorough"),
 ]:
     add(h, t, b, tier=tier, **({"min_covers": 2} if h in ("c05_bs_n4_m1", "c05_bs_n3_m4") else {}))
 
